@@ -239,6 +239,9 @@ func VerifH_gzip_grpc() {
 		frame := append([]byte{flag, 0, 0, 0, byte(len(body))}, body...)
 		h := http.Header{"Content-Type": []string{"application/grpc+fake"}, "Grpc-Encoding": []string{"gzip"}}
 		calls0, um0 := srv.calls, len(rec.unmarshal)
+		// known finding F-D39 (C08): the message is within the limit but its compressed frame is not
+		// (gzip's overhead on a short payload): refused although the size is measured after decompression
+		vfKnown("F-D39", reqMode == 1 && len(payload) <= 32 && len(body) > 32)
 		r := &http.Request{Method: "POST", URL: &url.URL{Path: "/vf.S/M0"}, Header: h, Body: vfNopCloser{&vfWholeReader{data: frame}}, ContentLength: -1, ProtoMajor: 2}
 		w := newFakeRW()
 		mux.ServeHTTP(w, r)
@@ -257,13 +260,10 @@ func VerifH_gzip_grpc() {
 			if reqMode == 1 {
 				vfCover("over-limit-after-decompression")
 			}
-		case reqMode == 1 && len(body) > 32 && gs[0] != "0":
-			// the message is within the limit but its compressed frame is not: grpc-go refuses such a
-			// frame as well; the property does not say which size counts on the wire - unspecified,
-			// but the refusal must be clean
-			vfCheck(srv.calls == calls0 && len(rec.unmarshal) == um0, "a refused frame reached the handler")
-			vfCover("compressed-form-above-limit-refused")
 		default:
+			if reqMode == 1 && len(body) > 32 {
+				vfCover("compressed-form-above-limit")
+			}
 			vfCheck(gs[0] == "0" && srv.calls == calls0+1, "a request within the receive limit was not served")
 			vfCheck(len(rec.unmarshal) == um0+1 && vfBytesEq(rec.unmarshal[um0], payload), "the codec did not receive exactly this request's (decompressed) message")
 			ge := w.sentHeader["Grpc-Encoding"]
